@@ -8,6 +8,7 @@ Q4 ab2rf peels one hard pulse with a unitary matrix built from c = (1 + |b/a|^2)
 NOT decided: that SLR design and simulation are mutual inverses, composition of waveforms, behaviour at exactly zero flip (eps regularisers are read as 0).
 """
 import ast
+from fractions import Fraction
 
 from .. import terms as T
 from ..model import AnchorMissing, Unrecognised, unparse
@@ -113,6 +114,94 @@ def unitary_obligations(new_a, new_b, names):
          T.show(T.add(T.mul(T.conj(M00), M01), T.mul(T.conj(M10), M11)), 300)),
     ]
     return obs
+
+
+def _exp_args(p, skip=()):
+    """arguments of the exp(..) atoms of a term that do not mention any symbol in `skip`"""
+    out = []
+    if not isinstance(p, T.Poly):
+        return out
+    for m in p.t:
+        for a, e in m:
+            if a[0] == "app" and a[1] == "exp" and len(a[2]) == 1:
+                arg = T.dec(a[2][0])
+                if isinstance(arg, T.Poly) and not (T.symbols(arg) & set(skip)):
+                    out.append(T.scale(arg, e) if hasattr(T, "scale") else arg)
+    return out
+
+
+def _sum_over_loop(arg, tsym, trip):
+    """sum over t in range(trip) of a term that is linear in samples X[t]: X[t] -> sum(X, axis=0), t-free monomials -> trip * monomial"""
+    out = T.const(0)
+    for m, c in arg.t.items():
+        term = T.Poly({frozenset(): c})
+        indexed = False
+        for a, e in m:
+            ap = T.Poly({frozenset({(a, e)}): T.ONE})
+            if a[0] == "app" and a[1] == "getitem" and e == 1 and tsym in T.symbols(ap):
+                base, idx = T.dec(a[2][0]), T.dec(a[2][1])
+                idx1 = idx[0] if isinstance(idx, tuple) and len(idx) == 1 else idx
+                if indexed or not (isinstance(idx1, T.Poly) and idx1 == T.sym(tsym, real=True)) or tsym in T.symbols(base):
+                    return None
+                indexed = True
+                ap = T.app("sum", base, T.app("kw:axis", T.const(0)))
+            elif tsym in T.symbols(ap):
+                return None
+            term = T.mul(term, ap)
+        out = T.add(out, term if indexed else T.mul(term, trip))
+    return out
+
+
+def _q7(run, M):
+    """abrm_hp applies the precession of every sample to beta only and compensates once, after the loop, with half the total precession phase
+    on both parameters (Pauly et al.): the compensation must be exactly -1/2 of the sum, over the time loop, of the per-sample phase --
+    otherwise (alpha, beta) carry a spurious phase that depends on the waveform length and back-to-back simulation no longer composes"""
+    run.rule("Q7", "abrm_hp: the phase applied after the time loop equals minus one half of the sum over the loop of the per-sample precession phase "
+                   "(sum over the samples of the gradient term, and the number of time points times the off-resonance term)")
+    q = "sigpy.mri.rf.sim.abrm_hp"
+    f = M.func(q)
+    cfg = SIMS[q]
+    body = f.body
+    withs = [s_ for s_ in body if isinstance(s_, ast.With)]
+    if withs:
+        body = withs[-1].body
+    loops = [i for i, s_ in enumerate(body) if isinstance(s_, ast.For)]
+    if not loops:
+        raise Unrecognised("%s has no time loop" % q, f.node)
+    pre, loop, post = body[:loops[0]], body[loops[0]], body[loops[0] + 1:]
+    real = set(cfg["real"])
+    ps = [o for o in SimVN(M, f, real=real).run(pre, State()) if o.status == "live"][0]
+    names, _ = find_state(M, f, ps.env, loop, real)
+    env = dict(ps.env)
+    for nm in names:
+        env[nm] = T.sym(nm)
+    tname = loop.target.id if isinstance(loop.target, ast.Name) else "_"
+    env[tname] = T.sym("t", real=True)
+    it = SimVN(M, f, real=real).ev(loop.iter, State(ps.env))
+    ia = it.single_atom() if isinstance(it, T.Poly) else None
+    trip = T.dec(ia[2][0]) if ia is not None and ia[0] == "app" and ia[1] in ("call:numpy.arange", "range") and len(ia[2]) == 1 else None
+    louts = [o for o in SimVN(M, f, real=real).run(loop.body, State(env)) if o.status == "live"]
+    env2 = dict(ps.env)
+    for nm in names:
+        env2[nm] = T.sym(nm)
+    pouts = [o for o in SimVN(M, f, real=real).run([s_ for s_ in post if not isinstance(s_, ast.Return)], State(env2)) if o.status == "live"]
+    ok = False
+    why = "the time loop or the statements after it have a form this rule cannot read"
+    if trip is not None and len(louts) == 1 and len(pouts) == 1:
+        step = [x for nm in names for x in _exp_args(louts[0].env.get(nm), skip=("rf",))]
+        step = [x for i, x in enumerate(step) if not any(x == y for y in step[:i])]
+        fin = [x for nm in names for x in _exp_args(pouts[0].env.get(nm), skip=("rf",))]
+        fin = [x for i, x in enumerate(fin) if not any(x == y for y in fin[:i])]
+        if len(step) == 1 and len(fin) == 1:
+            total = _sum_over_loop(step[0], "t", trip)
+            if total is not None:
+                want = T.scale(total, Fraction(-1, 2))
+                ok = T.eq(fin[0], want)
+                why = "abrm_hp multiplies (alpha, beta) after the loop by exp(%s); minus one half of the accumulated per-sample phase exp(%s) over %s samples is %s: " \
+                      "the result carries a spurious phase that depends on the waveform length" % (T.show(fin[0], 160), T.show(step[0], 120), T.show(trip, 60), T.show(want, 160))
+        else:
+            why = "abrm_hp has %d precession factor(s) in the loop and %d after it; expected one each" % (len(step), len(fin))
+    run.check(ok, "Q7", "abrm_hp total phase", f.loc(), "post-loop phase = -1/2 * sum of per-sample precession phases", why, stmt="Q7")
 
 
 def check(run, M, tier):
@@ -251,6 +340,7 @@ def check(run, M, tier):
         run.check(okr, "Q2", q.split(".")[-1] + " return", f.loc(), "returns the state pair (alpha, beta) or (alpha, -conj(beta))",
                   "%s returns `%s`, whose first two entries are not the simulated Cayley-Klein pair (%s, %s)" % (q, shown, names[0], names[1]), stmt="Q2:ret:" + q)
     run.floor("Q1", 6, n_sites, "state-update sites")
+    _q7(run, M)
     # ---- Q4 ab2rf
     f = M.func("sigpy.mri.rf.slr.ab2rf")
     loop = [s for s in f.body if isinstance(s, ast.For)]
